@@ -3,7 +3,7 @@
   never lost by a query, and `__delitem__` keeps (re-indexed) every entry but the erased one.  Holds for every
   state (no invariant needed).  Used for the invariant `Complete` of the caching semilattice.
 -/
-import Fca.Lemmas.SemiLatticeAdd
+import Fca.Lemmas.SemiLatticeHist
 set_option linter.unusedSectionVars false
 set_option linter.unusedVariables false
 namespace Fca.Poset
